@@ -10,6 +10,13 @@ from mc import synth, calc as K
 from mc.explore import V, HarnessError, repo_root
 from mc.ref import tensor_ref as R
 
+def seam_guard(ex):
+    """an AttributeError raised BY THE DUCK (an attribute the duck-typed calculator does not carry) is a drift of the
+    harness seam, not a property violation (DESIGN §12)"""
+    if isinstance(ex, AttributeError) and "SimpleNamespace" in str(ex):
+        raise HarnessError(f"duck-typed seam no longer matches the code: {ex}")
+
+
 ID = "C07"
 MOD = "mc.props.c07"
 TOL = 1e-9
@@ -60,7 +67,12 @@ def check_point_set(viol, vb, cfield, t, v, cellmass, ctx_msg):
             got[k] = numpy.asarray(getattr(vb, nm), float)
         got["vp"] = numpy.asarray(vb.primary_velocities, float)
         got["vs"] = numpy.asarray(vb.secondary_velocities, float)
+        for k, a in got.items():
+            if a.shape != (nt, nv):
+                viol.append(V("c07:average-shape", f"{ctx_msg}: {k} has shape {a.shape}, the (T,V) grid is {(nt, nv)}"))
+                return 0
     except Exception as ex:
+        seam_guard(ex)
         viol.append(V(f"c07:raises:{type(ex).__name__}", f"{ctx_msg}: {K.fmt_exc(ex)}"))
         return 0
     s_rep = numpy.zeros((nt, nv, 6, 6))
@@ -70,6 +82,9 @@ def check_point_set(viol, vb, cfield, t, v, cellmass, ctx_msg):
                 s = numpy.asarray(getattr(vb, f"s{a}{b}"), float)
             except AttributeError:
                 continue
+            if s.shape != (nt, nv):
+                viol.append(V("c07:compliance-shape", f"{ctx_msg}: s{a}{b} has shape {s.shape}, the (T,V) grid is {(nt, nv)}"))
+                return 0
             s_rep[:, :, a - 1, b - 1] = s
             s_rep[:, :, b - 1, a - 1] = s
     npd = 0
@@ -113,7 +128,7 @@ def make_duck(cf, t, v, mass, c_, order="given"):
         qha_calculator=SimpleNamespace(volume_base=SimpleNamespace(v_array=v, t_array=t)))
 
 
-READ_ALPHABET = ["c11t", "c12t", "c_44t", "c11", "c1122s", "s11", "s44", "bulk_modulus_voigt", "shear_modulus_reuss",
+READ_ALPHABET = ["c11t", "c12t", "c_44t", "c11", "c1122s", "s11", "s44", "s2323", "s1113", "s_66", "bulk_modulus_voigt", "shear_modulus_reuss",
                  "bulk_modulus_voigt_reuss_hill", "primary_velocities", "secondary_velocities"]
 
 
@@ -141,8 +156,40 @@ def run_reads(case):
         if not viol:
             check_point_set(viol, vb, cf, t, v, 40.3044, f"after reads {case['ops']}")
     except Exception as ex:
+        seam_guard(ex)
         viol.append(V(f"c07:raises:{type(ex).__name__}", K.fmt_exc(ex)))
     return {"viol": viol, "nontrivial": len(case["ops"]) > 1, "outcome": "reads-ok" if not viol else viol[0]["sig"]}
+
+
+def run_calcs(case):
+    """process history: several real Calculators constructed one after the other and all kept alive; afterwards each one's
+    averages/compliances/velocities must still be those of ITS OWN adiabatic tensor"""
+    from cij.core.calculator import Calculator
+    from mc.props import c06
+    viol = []
+    with K.scratch() as d:
+        calcs = []
+        try:
+            for n, (data, system) in enumerate(case["seq"]):
+                spec = dict(c06.DATASETS[data])
+                spec["system"], spec["compset"] = system, "minimal"
+                spec["qha"] = dict(T_MIN=0, NT=2, DT=900, DT_SAMPLE=900, NTV=21, DELTA_P=2.0, DELTA_P_SAMPLE=2.0)
+                sub = os.path.join(d, str(n))
+                os.makedirs(sub)
+                ds, st = synth.write(sub, spec)
+                calcs.append((Calculator(os.path.join(sub, "settings.yaml")), ds))
+        except Exception as ex:
+            seam_guard(ex)
+            return {"viol": [V(f"c07:raises:{type(ex).__name__}", K.fmt_exc(ex))], "outcome": "raises"}
+        npd = 0
+        for n, (c, ds) in enumerate(calcs):
+            cf = {tuple(k.voigt): numpy.asarray(a, float) for k, a in c.modulus_adiabatic.items()}
+            before = len(viol)
+            npd += check_point_set(viol, c.volume_base, cf, numpy.asarray(c.t_array, float), numpy.asarray(c.v_array, float), ds["cellmass"],
+                                   f"Calculator #{n} of sequence {case['seq']} (checked after all were built)")
+            for v in viol[before:]:
+                v["sig"] = v["sig"].replace("c07:", "c07:process-history:", 1)
+    return {"viol": viol, "nontrivial": npd > 0, "outcome": "calcs-ok" if not viol else viol[0]["sig"], "points": npd}
 
 
 def run_case(case):
@@ -162,6 +209,7 @@ def run_case(case):
                     Calculator._calculate_compliances(duck)
                     vb = CijVolumeBaseInterface(duck)
                 except Exception as ex:
+                    seam_guard(ex)
                     viol.append(V(f"c07:raises:{type(ex).__name__}", f"subset mask {mask}: {K.fmt_exc(ex)}"))
                     continue
                 extra = [EXTRA12[i] for i in range(12) if mask >> i & 1]
@@ -175,9 +223,12 @@ def run_case(case):
             Calculator._calculate_compliances(duck)
             vb = CijVolumeBaseInterface(duck)
         except Exception as ex:
+            seam_guard(ex)
             return {"viol": [V(f"c07:raises:{type(ex).__name__}", K.fmt_exc(ex))], "outcome": "raises"}
         npd = check_point_set(viol, vb, cf, t, v, case["mass"], f"{case['system']}/{case['mag']}")
         return {"viol": viol, "nontrivial": npd > 0, "outcome": f"ok/{len(cf)}keys" if not viol else viol[0]["sig"], "points": npd}
+    if case["kind"] == "calcs":
+        return run_calcs(case)
     # real Calculator
     from mc.props import c06
     spec = dict(c06.DATASETS[case["data"]])
@@ -189,6 +240,7 @@ def run_case(case):
         try:
             c = Calculator(os.path.join(d, "settings.yaml"))
         except Exception as ex:
+            seam_guard(ex)
             return {"viol": [V(f"c07:raises:{type(ex).__name__}", K.fmt_exc(ex))], "outcome": "raises"}
         cf = {tuple(k.voigt): numpy.asarray(a, float) for k, a in c.modulus_adiabatic.items()}
         t, v = numpy.asarray(c.t_array, float), numpy.asarray(c.v_array, float)
@@ -201,7 +253,8 @@ def explore(ctx):
                 "2 grid shapes x 3 cell masses x 2 key orders on a duck calculator driving the real _calculate_compliances and "
                 "CijVolumeBaseInterface, all 4096 subsets of the twelve non-orthotropic components added to the nine orthotropic ones, all "
                 "ordered sequences of <=2 (<=3 thorough) attribute reads on one interface object (each read equal to a fresh object's), "
-                "plus real Calculators (3 data sets x 4 systems x 2 masses); every positive-definite grid point: "
+                "plus real Calculators (3 data sets x 4 systems x 2 masses) and all ordered pairs (triples thorough) of real Calculators kept "
+                "alive together in one process; every positive-definite grid point: "
                 "K/G Voigt, Reuss, Hill vs C_iijj, C_ijij, S_iijj, S_ijij of the full tensor, bounds, s*c = 1, rho v^2 identities in SI; "
                 "non-trivial = at least one positive-definite grid point")
     ctx.assumptions = ["tensor_ref (validated by rotational invariants in selftest)", "CODATA N_A, Rydberg, Bohr radius from scipy.constants"]
@@ -218,7 +271,7 @@ def explore(ctx):
     chunks = [list(range(m, min(m + 64, 4096))) for m in range(0, 4096, 64)]
     res += ctx.run(MOD, "run_case", [{"kind": "subset", "masks": ch, "grid": "3x4", "mass": 40.3044} for ch in chunks],
                    part="component-subsets", states=4096, transitions=4096)
-    # read histories on one interface object: all ordered sequences of length <= 2 (3 in thorough) over 12 attribute reads
+    # read histories on one interface object: all ordered sequences of length <= 2 (3 in thorough) over 15 attribute reads
     import itertools
     seqs = [list(s) for L in ((1, 2) if ctx.quick else (1, 2, 3)) for s in itertools.product(READ_ALPHABET, repeat=L)]
     res += ctx.run(MOD, "run_case", [{"kind": "reads", "system": "monoclinic", "ops": sq} for sq in seqs], part="read-histories",
@@ -226,6 +279,11 @@ def explore(ctx):
     real = [{"kind": "calc", "data": dname, "system": s, "mass": m} for dname in ("A", "B", "C")
             for s in ("orthorhombic", "monoclinic", "cubic", "trigonal7") for m in (100.3887, 7.25)]
     res += ctx.run(MOD, "run_case", real, part="real-calculators", chunksize=1)
+    variants = [("A", "trigonal7"), ("A", "orthorhombic"), ("B", "monoclinic"), ("C", "cubic")]
+    import itertools as _it
+    seqs = [list(p) for p in _it.permutations(variants, 2)] + ([list(p) for p in _it.permutations(variants, 3)] if not ctx.quick else [variants, variants[::-1]])
+    res += ctx.run(MOD, "run_case", [{"kind": "calcs", "seq": [list(x) for x in sq]} for sq in seqs], part="calculator-sequences", chunksize=1,
+                   transitions=sum(len(sq) for sq in seqs))
     ctx.notes["positive_definite_points_checked"] = sum(r.get("points", 0) for r in res)
 
 
